@@ -27,6 +27,7 @@ RULE = ("tables: random sequences of make_*interaction (1-4 variables; 3-/4-vari
         "set_enable_heatbath / steps / swap_manager_and_state in both call directions / tempering_step with a scripted container RNG (accepted swaps) interleaved, each sampler's table compared after every call with the table of its OWN Hamiltonian; "
         "sweeps: (1/8 of the Ising samplers carry the operator string of such a partner after an odd number of swaps) exact trajectory of single_diagonal_step / diagonal_update on warmed-up samplers, heat-bath on (3/4) and off, replayed by the model; "
         "(a third of the Ising strings are re-installed through FastOps::new_from_ops from their sparse (p, op) list before the step; get_n() must equal the scanned count after install and after every sweep); "
+        "Ising samplers include frustrated antiferromagnets (triangle / square with diagonals) with RVB updates; explicit single_rvb_sweep / single_cluster_step calls precede the examined step; after every call every stored op must satisfy is_diagonal() == (inputs == outputs); a third of the examined Ising steps are drains (beta = 1e-12) after which no operator with inputs == outputs may remain; "
         "energy: heat-bath (5/6) runs through timesteps / timesteps_sample / timesteps_measure / timesteps_sample_iter / timesteps_measure_with_self with sampling_freq None/1/2/3/5, returned energy vs -(sum n over SAMPLED steps/#sampled)/beta + offset of a manual timestep/get_n loop on a clone with the same RNG words (1e-12), plus the C17 measuring-loop modes; "
         "prob: threshold bisection of attempt / bond / rejection words of a random empty slot inside a public diagonal step (prefix scripted so that "
         "earlier removals change n) and of the removal word in the next sweep; oracle on measured numbers: p_insert/p_remove = beta*w/(L-n). "
